@@ -25,7 +25,7 @@ CFG = {
             "function does not read (`whandler`): a write to it must not re-invoke anything; `memoh` asymmetric comparator leaves; comparator / "
             "prev-argument instrumentation as in C01; `imm` (an eighth) = ImmediateEffect::new over signals and memos over signals; `slice`, "
             "`mapped`, `maybe`, `dropped`, `scope`, `disposew`, `setun`, `memof`, `oncl`, `rieff` (RenderEffect::new_isomorphic) as in C01 / C02; "
-            "`onclr` = the on_cleanup callbacks of every effect constructor read a signal (a write to a cleanup-only signal must not re-invoke the body)",
+            "`selc` = Selector::new_with_fn with a non-equality comparator (as in C02); `onclr` = the on_cleanup callbacks of every effect constructor read a signal (a write to a cleanup-only signal must not re-invoke the body)",
     "trusted": ["the harness counts invocations inside the real closures; versions (writes / changed recomputations) are kept by the harness",
                 "lean/LeptosModel/Model/ReactiveDriver.lean desugars `sel K e` into K flag signals + one render effect, `memoc` into `memo`, `acc` into nothing (header comment)"],
     "modelled": ["MemoInner::update_if_necessary (changed flag, Check resolution, skip-current-observer rule)", "EffectInner::{mark_dirty,mark_check,update_if_necessary}",
